@@ -420,10 +420,11 @@ def compare_field(e: Exp, got, consts):
         yield "name", f"name {got.name!r} != {f.name!r}"
     if got.unit_of_measurement != f.unit:
         yield "unit", f"unit {got.unit_of_measurement!r} != {f.unit!r}"
-    exp_pq = getattr(PQ, f.pq) if f.pq else None
-    if got.physical_quantities != exp_pq:
-        yield "quantity", f"physical quantity {got.physical_quantities!r} != {exp_pq!r}"
-    if got.type != getattr(FT, f.type):
+    # compared by NAME: two enumeration members with one value are aliases of each other and would compare equal
+    got_pq = getattr(got.physical_quantities, "name", got.physical_quantities)
+    if got_pq != f.pq:
+        yield "quantity", f"physical quantity {got.physical_quantities!r} != {f.pq!r}"
+    if getattr(got.type, "name", got.type) != f.type:
         yield "type", f"type {got.type!r} != {f.type}"
     if bool(got.part_of_primary_key) != f.pk:
         yield "primary_key", f"part_of_primary_key {got.part_of_primary_key!r} != {f.pk}"
